@@ -442,6 +442,16 @@ func (o *AccountingOracle) check(r *Run, ssn *framework.Session, at string) {
 				if ni == nil {
 					continue
 				}
+				// what a gpu-memory pod is charged depends on the node it is on: requested memory over the memory of
+				// that node's devices (the scheduler rounds up to a hundredth of a device), per device requested
+				if mem := t.ResReq.GpuMemory(); mem > 0 && ni.MemoryOfEveryGpuOnNode > 0 && t.AcceptedResource != nil {
+					devs := float64(max(1, t.ResReq.GetNumOfGpuDevices()))
+					exact := devs * float64(mem) / float64(ni.MemoryOfEveryGpuOnNode)
+					if got := t.AcceptedResource.GetGpusQuota(); got < exact-1e-9 || got > exact+0.01*devs+1e-9 {
+						fail("task_accepted_gpu_share", "task %s (%v, gpu-memory %d x %v devices) on node %s with %d per device is charged %.4f GPUs, its request on this node is %.4f",
+							t.Name, t.Status, mem, devs, t.NodeName, ni.MemoryOfEveryGpuOnNode, got, exact)
+					}
+				}
 				c, found := ni.PodInfos[pod_info.PodKey(t.Pod)]
 				if !found {
 					fail("pod_missing_on_node", "task %s status %v node %s is not among the node's pods", t.Name, t.Status, t.NodeName)
